@@ -796,6 +796,55 @@ def reach_generate_two_files(n1: int, n2: int, chunk: int, same_names: bool) -> 
     return generate_two_files_check(n1, n2, chunk, same_names)
 
 
+def declared_count_check(n1, n2, extra, nf, two):
+    """The length DLISFile.generate_logical_records declares (the writer's progress maximum) is never smaller than
+    the number of records it yields minus one (the largest value the bar is advanced to): the progress bar refuses values above its maximum whenever it gets to redraw,
+    i.e. on slow (large) records, so an under-declared length makes a valid specification unwritable."""
+    nps.reset()
+    df, lfs = new_file(2 if two else 1)
+    lf1 = lfs[0]
+    add_origin(lf1, 'O1', set_name='S1')
+    c1 = lf1.add_channel('A', data=col('colA1', n1, 2, '<', None), set_name='S1')
+    lf1.add_frame('F1', channels=(c1,), set_name='S1')
+    for k in range(extra):
+        lf1.add_zone('Z' + str(k), set_name='S1')
+    if two:
+        lf2 = lfs[1]
+        add_origin(lf2, 'O2', set_name='S2')
+        c2 = lf2.add_channel('B', data=col('colA2', n2, 2, '<', None), set_name='S2')
+        lf2.add_frame('F2', channels=(c2,), set_name='S2')
+    last = lfs[-1]
+    if nf > 0:
+        nfo = last.add_no_format('N', set_name='S2' if two else 'S1')
+        for k in range(nf):
+            last.add_no_format_frame_data(nfo, 'ab')
+    sized = df.generate_logical_records(chunk_size=None)
+    declared = len(sized)
+    k = 0
+    for _r in sized:
+        k = k + 1
+    # the bar is advanced to i when record i + 1 is fetched: the largest value it sees is k - 1
+    if declared < k - 1:
+        return 1
+    return 0
+
+
+def ob_declared_count(n1: int, n2: int, extra: int, nf: int, two: bool) -> int:
+    """
+    pre: 1 <= n1 <= 3 and 1 <= n2 <= 3 and 0 <= extra <= 2 and 0 <= nf <= 2
+    post: _ == 0
+    """
+    return declared_count_check(n1, n2, extra, nf, two)
+
+
+def reach_declared_count(n1: int, n2: int, extra: int, nf: int, two: bool) -> int:
+    """
+    pre: 1 <= n1 <= 3 and 1 <= n2 <= 3 and 0 <= extra <= 2 and 0 <= nf <= 2
+    post: _ != 0
+    """
+    return declared_count_check(n1, n2, extra, nf, two)
+
+
 NAMES2 = ['A', 'B']
 DSN = [None, 'A', 'B', 'A__1']
 
